@@ -26,7 +26,7 @@ def handle : Handler := fun op j =>
       pure (Json.mkObj [("r", ofNat (B Generated.skeleton m d)),
                         ("cutK", ofNat Generated.skeleton.cutK), ("maxCnt", ofNat Generated.skeleton.maxCnt),
                         ("ok", Json.bool (SkeletonOK Generated.skeleton)),
-                        ("sameDepth", Json.arr (sameDepthSites.map (fun p => Json.arr #[Json.str p.1, Json.str p.2])).toArray)])
+                        ("sameDepth", Json.arr (sameDepthSites.map (fun p => Json.arr #[Json.str p.1, Json.str p.2.1, Json.str p.2.2])).toArray)])
   | "depth.erasure" => some do
       let n0 ← getNat j "n0"
       let n ← getNat j "n"
